@@ -59,6 +59,8 @@ type storeEnv struct {
 	eh   rts.ExpandServiceServer
 	nids map[string]uuid.UUID
 	sym  *symtab
+	// pre-mapped request of the atomic family
+	preIns, preDel []*relationtuple.RelationTuple
 }
 
 func newStoreEnv(t testing.TB, nss []*namespace.Namespace, seed int64, extra ...driver.TestRegistryOption) *storeEnv {
